@@ -188,25 +188,30 @@ def warp_event(darsia, rng, dim, sshape, ks, shift, typed, payload, tid, dshape_
         A.set_parameters(translation=t + half - P @ half, scaling=1.0, rotation=angles)
     else:
         # physical coordinates: equal isotropic voxel size h in both systems; voxel centre v+1/2 sits at o + h*S(v+1/2)
+        def physical(h, origin):
+            src = image(sshape, [h] * dim)
+            dst = image(dshape, [h] * dim, 0.0, origin=origin)
+            # x = o + h * (v + 1/2) @ Mperm  (Cartesian from matrix position), taken from the images' own coordinate systems
+            def frame(im):
+                cs = im.coordinatesystem
+                o = np.asarray(cs.coordinate([0] * dim), dtype=float)
+                M = np.array([np.asarray(cs.coordinate(list(np.eye(dim, dtype=int)[m])), dtype=float) - o for m in range(dim)]).T
+                return o, M          # x = o + M p, p matrix position in voxels (columns of M include h and orientation)
+            os_, Ms = frame(src)
+            od, Md = frame(dst)
+            # matrix-space map p_dst = P p_src + t (+1/2 bookkeeping cancels for centres): x_dst = od + Md (P Ms^-1 (x - os) + t + (1/2 - P 1/2))
+            Rphys = Md @ P @ np.linalg.inv(Ms)
+            tphys = od + Md @ (t + 0.5 - P @ np.full(dim, 0.5)) - Rphys @ os_
+            A_ = darsia.AffineTransformation(dim)
+            A_.set_dtype(darsia.make_coordinate([[0.0] * dim]), darsia.make_coordinate([[0.0] * dim]))
+            A_.translation = tphys
+            A_.scaling = 1.0
+            A_.rotation = Rphys
+            A_.rotation_inv = Rphys.T
+            return src, dst, A_
+
         h = rng.choice([1.0, 0.5, 0.1])
-        src = image(sshape, [h] * dim)
-        dst = image(dshape, [h] * dim, 0.0, origin=[rng.choice([0.0, 3.0, -2.5]) for _ in range(dim)])
-        # x = o + h * (v + 1/2) @ Mperm  (Cartesian from matrix position), taken from the images' own coordinate systems
-        def frame(im):
-            cs = im.coordinatesystem
-            o = np.asarray(cs.coordinate([0] * dim), dtype=float)
-            M = np.array([np.asarray(cs.coordinate(list(np.eye(dim, dtype=int)[m])), dtype=float) - o for m in range(dim)]).T
-            return o, M          # x = o + M p, p matrix position in voxels (columns of M include h and orientation)
-        os_, Ms = frame(src)
-        od, Md = frame(dst)
-        # matrix-space map p_dst = P p_src + t (+1/2 bookkeeping cancels for centres): x_dst = od + Md (P Ms^-1 (x - os) + t + (1/2 - P 1/2))
-        Rphys = Md @ P @ np.linalg.inv(Ms)
-        tphys = od + Md @ (t + 0.5 - P @ np.full(dim, 0.5)) - Rphys @ os_
-        A.set_dtype(darsia.make_coordinate([[0.0] * dim]), darsia.make_coordinate([[0.0] * dim]))
-        A.translation = tphys
-        A.scaling = 1.0
-        A.rotation = Rphys
-        A.rotation_inv = Rphys.T
+        src, dst, A = physical(h, [rng.choice([0.0, 3.0, -2.5]) for _ in range(dim)])
     e = {"tid": tid, "op": "warp", "dim": dim, "typed": typed, "payload": payload, "sshape": list(sshape), "dshape": list(dshape), "trailing": list(trailing),
          "P": P.astype(int).tolist(), "t": [int(x) for x in t], "k": list(ks), "raised": 0, "res": [], "second": "same"}
     try:
@@ -222,6 +227,15 @@ def warp_event(darsia, rng, dim, sshape, ks, shift, typed, payload, tid, dshape_
             out2 = corr(src2)
             if not np.array_equal(out2.img, 2.0 * out.img) or not np.array_equal(before, src.img):
                 e["second"] = "different"
+            if typed == "X":
+                # a second correction object for the SAME index map between images of the same shapes that sit elsewhere and have
+                # another voxel size, used alternately with the first one: both move the same voxels
+                src_b, dst_b, A_b = physical(h * 2.5, [rng.choice([1.0, -7.0, 4.5]) for _ in range(dim)])
+                corr_b = darsia.TransformationCorrection(src_b.coordinatesystem, dst_b.coordinatesystem, A_b)
+                out_b = corr_b(src_b)
+                out_a = corr(src)
+                if not np.array_equal(out_b.img, out.img) or not np.array_equal(out_a.img, out.img):
+                    e["second"] = "different"
     except Exception as ex:  # noqa
         e["raised"] = 1
         e["error"] = repr(ex)[:200]
